@@ -17,9 +17,15 @@ type C08Params struct {
 	N       int    `json:"n"`                 // number of hostile datagrams
 	SpanMs  int    `json:"span_ms"`           // injected over this span from the start
 	Target  string `json:"target"`            // c | s | both
-	Flood   string `json:"flood,omitempty"`   // "", frags: reassembly stress burst
+	Flood   string `json:"flood,omitempty"`   // "", frags | tiny | empty | empty-nonempty | overlap | seqs: reassembly stress burst of that fragment shape
 	Phase   string `json:"phase,omitempty"`   // "": injection while the handshake runs; "est": against an established session (modes U | K)
+	// HelloAlt (handshake phase, mode any): as soon as the client's first ClientHello is on the
+	// wire, a well-formed variant of it that leaves the server without a common version, suite,
+	// group or signature algorithm is delivered first (a spoofed sender that overtakes the client)
+	HelloAlt string `json:"hello_alt,omitempty"`
 }
+
+var c08HelloAlts = []string{"legacy-10", "no-sv", "legacy-10+no-sv", "sv-unknown", "legacy-10+sv-unknown", "suites-unknown", "no-groups", "no-keyshare", "no-sigalgs", "no-exts", "version", "compression"}
 
 func c08Counts(tier string) (int, int) {
 	if tier == "thorough" {
@@ -46,14 +52,23 @@ func c08Gen(r *rand.Rand, tier string, idx int) any {
 	p.SpanMs = []int{5, 40, 200, 1500}[r.IntN(4)]
 	if p.Cfg != "" && r.IntN(2) == 0 {
 		p.Phase = "est"
-		p.Mode = []string{"U", "U", "K"}[r.IntN(3)]
+		p.Mode = []string{"U", "U", "K", "R"}[r.IntN(4)]
 		p.N = 1 + r.IntN(40)
+		if p.Mode == "R" {
+			p.N = 50 + r.IntN(1000)
+		}
 
 		return p
 	}
+	if p.Mode == "any" && r.IntN(4) == 0 {
+		p.HelloAlt = c08HelloAlts[r.IntN(len(c08HelloAlts))]
+	}
 	if p.Mode == "any" && r.IntN(5) == 0 {
-		p.Flood = "frags"
+		p.Flood = []string{"frags", "frags", "tiny", "empty", "empty-nonempty", "overlap", "seqs"}[r.IntN(7)]
 		p.N = 200 + r.IntN(1200)
+		if p.Flood != "frags" {
+			p.N = 900 + r.IntN(900) // the count limit is the one at stake
+		}
 	}
 
 	return p
@@ -295,6 +310,10 @@ func c08CheckSizes(rc *RunCtx, name string, c *dtls.Conn) bool {
 		rc.Violate("bloat:queue", "%s holds %d queued datagrams (documented limit 100)", name, z.QueuedDatagrams)
 	case z.FragmentCount > 1000 || z.FragmentBytes > 2000000:
 		rc.Violate("bloat:fragments", "%s buffers %d fragments / %d bytes (documented limits 1000 / 2 MB)", name, z.FragmentCount, z.FragmentBytes)
+	case z.HandshakeCache > 300 && z.HandshakeCacheDup > z.HandshakeCache/2:
+		rc.Violate("bloat:handshake-cache:retransmitted-copies", "%s caches %d handshake messages, %d of them byte-identical copies of messages cached before (a handshake has a few dozen messages; one more copy is kept per retransmission)", name, z.HandshakeCache, z.HandshakeCacheDup)
+	case z.HandshakeCache > 300:
+		rc.Violate("bloat:handshake-cache:unsolicited-messages", "%s caches %d handshake messages (%d of them copies); a handshake has a few dozen: every complete cleartext handshake message that continues the message sequence is kept, whatever its type and whatever the handshake state", name, z.HandshakeCache, z.HandshakeCacheDup)
 	case z.ReplayDetectors > int(max(z.RemoteEpoch, z.LocalEpoch))+4:
 		rc.Violate("bloat:replay-windows", "%s allocated %d per-epoch replay windows at epoch %d/%d", name, z.ReplayDetectors, z.LocalEpoch, z.RemoteEpoch)
 	case z.LocalSeqEpochs > int(max(z.RemoteEpoch, z.LocalEpoch))+4 || z.RemoteSeqEpochs > int(max(z.RemoteEpoch, z.LocalEpoch))+4:
@@ -342,6 +361,7 @@ func c08Run(rc *RunCtx, params any) {
 	}
 	rc.R.NonTriv = true
 	third := Addr(9, 999)
+	floodSeq := 0
 	// schedule the hostile datagrams
 	for i := 0; i < p.N; i++ {
 		i := i
@@ -368,23 +388,59 @@ func c08Run(rc *RunCtx, params any) {
 			hr := rand.New(rand.NewPCG(uint64(hd.A), 77))
 			var data []byte
 			var kind string
-			if p.Flood == "frags" {
-				// reassembly stress: many small fragments of huge future messages
+			if p.Flood != "" {
+				// reassembly stress: many fragments of future messages, in one of several shapes
+				// message sequence numbers just ahead of the handshake (overtaken and pruned as it
+				// proceeds) or far ahead of it (never reached: whatever is buffered for them stays)
+				msgLen, off, fl, seq := 1900000, i*1500, 1400, []int{1 + hr.IntN(3), 30 + hr.IntN(4), 1000 + hr.IntN(2), 65535}[int(hd.A)%4]
+				switch p.Flood {
+				case "tiny": // one byte each: the fragment count is the limit that matters
+					msgLen, off, fl = 1900000, i*3, 1
+				case "empty": // empty fragments of an empty message, each at its own offset
+					msgLen, off, fl = 0, 1+i, 0
+				case "empty-nonempty": // empty fragments of a non-empty message
+					msgLen, off, fl = 50000, i, 0
+				case "overlap": // overlapping fragments with shifting boundaries
+					msgLen, off, fl = 60000, i*7, 100
+				case "seqs": // one small fragment for each of many future messages
+					msgLen, off, fl, seq = 300, 0, 20, 1+i
+				}
 				h := make([]byte, 12)
-				h[0] = 11
-				putU24(h[1:], 1900000)
-				putU16(h[4:], 1+hr.IntN(3))
-				putU24(h[6:], i*1500)
-				putU24(h[9:], 1400)
-				body := append(h, make([]byte, 1400)...)
-				rec := []byte{CTHandshake, 0xfe, 0xfd, 0, 0, 0, 0, 0, byte(i >> 16), byte(i >> 8), byte(i), byte(len(body) >> 8), byte(len(body))}
-				data, kind = append(rec, body...), "fragment-flood"
+				h[0] = []byte{11, 14, 12, 2}[hr.IntN(4)]
+				putU24(h[1:], msgLen)
+				putU16(h[4:], seq)
+				putU24(h[6:], off)
+				putU24(h[9:], fl)
+				body := append(h, make([]byte, fl)...)
+				// record numbers rise in injection order (else the replay window discards most of the
+				// flood before it reaches the reassembly buffer)
+				floodSeq++
+				rec := []byte{CTHandshake, 0xfe, 0xfd, 0, 0, 0, 0, 1, byte(floodSeq >> 16), byte(floodSeq >> 8), byte(floodSeq), byte(len(body) >> 8), byte(len(body))}
+				data, kind = append(rec, body...), "fragment-flood-"+p.Flood
 			} else {
 				data, kind = hostileDatagram(hr, captured, cid, p.Mode == "U")
 			}
 			s.Fault("hostile:" + kind)
 			n.InjectNow(from, to, data)
 		})
+	}
+	if p.HelloAlt != "" && p.Mode == "any" {
+		col := NewHsCollector()
+		sent := false
+		n.OnEmit = func(em *Emission) {
+			if sent || em.Ep != "c" {
+				return
+			}
+			col.Feed(*em, 0)
+			chs := col.Of("c", HTClientHello)
+			if len(chs) == 0 {
+				return
+			}
+			sent = true
+			alt := wrapCH(alterCH(chs[0].Body, p.HelloAlt), 0, 0x300000)
+			s.Fault("hostile:hello-" + p.HelloAlt)
+			s.After(50*time.Microsecond, func() { n.InjectNow(pair.CAddr, pair.SAddr, alt) })
+		}
 	}
 	pair.StartHandshakes(0)
 	ok := true
